@@ -177,7 +177,16 @@ const OPS: [&str; 10] = [
   "proofVerification",
 ];
 const ALGS: [&str; 6] = ["EdDSA", "ES256", "ES256K", "RS256", "HS256", "vendor-alg"];
-const KIDS: [&str; 4] = ["key-1", "2011-04-29", "0", "k.e_y~9"];
+/// The last two are shaped like RFC 7638 thumbprints (43 base64url characters = 32 bytes) of *other* keys: a kid
+/// is an optional member and must not influence the thumbprint whatever it looks like.
+const KIDS: [&str; 6] = [
+  "key-1",
+  "2011-04-29",
+  "0",
+  "k.e_y~9",
+  "NzbLsXh8uDCcd-6MNwXF4W_7noWXFZAfHkxZsRGC9Xs",
+  "kPrK_qmxVWaYVA9wwBF6Iuo3vVzz7TxHCTwXBygrS4k",
+];
 const UNKNOWN_NAMES: [&str; 5] = ["ext", "foo", "nbf", "x-vendor", "keyinfo"];
 const FRAGMENTS: [&str; 3] = ["key-1", "#signing", "f0"];
 
